@@ -143,10 +143,10 @@ theorem importDeps_ok (ds : List Str) {st : EncSt} (hs : Sync st) (hi : InstInv 
       have := ih (st := { st2 with instances := amInsert st2.instances d idx }) f12.sync hi2
       exact ⟨(f12.instances _).trans this.1, this.2⟩
 
-theorem importItem_ok {st : EncSt} (hs : Sync st) (hi : InstInv st) (name : Str) (ty : ItemTy)
+theorem importItem_ok (cn : Str → Str) {st : EncSt} (hs : Sync st) (hi : InstInv st) (name : Str) (ty : ItemTy)
     (hty : ty.kind = .instance → ty.iface = none ∨ ty.iface = some name) :
-    ImpFrame st (importItem st name ty).1 ∧ InstInv (importItem st name ty).1 ∧
-      Has (G (importItem st name ty).1) ty.kind (importItem st name ty).2 (.imp name) := by
+    ImpFrame st (importItem cn st name ty).1 ∧ InstInv (importItem cn st name ty).1 ∧
+      Has (G (importItem cn st name ty).1) ty.kind (importItem cn st name ty).2 (.imp name) := by
   unfold importItem
   -- the reuse test
   cases hre : (if ty.kind = .instance then
@@ -176,12 +176,12 @@ theorem importItem_ok {st : EncSt} (hs : Sync st) (hi : InstInv st) (name : Str)
   | none =>
     simp only
     -- dependencies first
-    have hd : ImpFrame st (if ty.kind = .instance then importDeps ty.deps st else st) ∧
-        InstInv (if ty.kind = .instance then importDeps ty.deps st else st) := by
+    have hd : ImpFrame st (if ty.kind = .instance then importDeps (ty.deps.map cn) st else st) ∧
+        InstInv (if ty.kind = .instance then importDeps (ty.deps.map cn) st else st) := by
       split
-      · exact importDeps_ok ty.deps hs hi
+      · exact importDeps_ok (ty.deps.map cn) hs hi
       · exact ⟨ImpFrame.refl hs, hi⟩
-    generalize (if ty.kind = .instance then importDeps ty.deps st else st) = st0 at hd
+    generalize (if ty.kind = .instance then importDeps (ty.deps.map cn) st else st) = st0 at hd
     obtain ⟨f0, hi0⟩ := hd
     have f1 := ImpFrame.typeDef f0.sync
     have f2 := ImpFrame.import f1.sync name ty.kind
@@ -234,11 +234,11 @@ theorem importItem_ok {st : EncSt} (hs : Sync st) (hi : InstInv st) (name : Str)
 def EncOk (w : WState) (l : List (Str × ItemTy)) (enc : List (Str × (Kind × Nat))) : Prop :=
   ∀ nm k idx, amGet enc nm = some (k, idx) → Has w k idx (.imp nm) ∧ ∃ ty, (nm, ty) ∈ l ∧ k = ty.kind
 
-theorem importAll_ok (l : List (Str × ItemTy)) {st : EncSt} {enc : List (Str × (Kind × Nat))} (l0 : List (Str × ItemTy))
+theorem importAll_ok (cn : Str → Str) (l : List (Str × ItemTy)) {st : EncSt} {enc : List (Str × (Kind × Nat))} (l0 : List (Str × ItemTy))
     (hs : Sync st) (hi : InstInv st)
     (hl : ∀ e ∈ l, e.2.kind = .instance → e.2.iface = none ∨ e.2.iface = some e.1)
     (henc : EncOk (G st) l0 enc) :
-    ImpFrame st (importAll l st enc).1 ∧ EncOk (G (importAll l st enc).1) (l0 ++ l) (importAll l st enc).2 := by
+    ImpFrame st (importAll cn l st enc).1 ∧ EncOk (G (importAll cn l st enc).1) (l0 ++ l) (importAll cn l st enc).2 := by
   induction l generalizing st enc l0 with
   | nil =>
     simp only [importAll, List.append_nil]
@@ -246,10 +246,10 @@ theorem importAll_ok (l : List (Str × ItemTy)) {st : EncSt} {enc : List (Str ×
   | cons e l ih =>
     obtain ⟨name, ty⟩ := e
     simp only [importAll]
-    have h1 := importItem_ok hs hi name ty (hl (name, ty) (List.mem_cons_self ..))
+    have h1 := importItem_ok cn hs hi name ty (hl (name, ty) (List.mem_cons_self ..))
     obtain ⟨f1, hi1, hhas⟩ := h1
-    have henc1 : EncOk (G (importItem st name ty).1) (l0 ++ [(name, ty)])
-        (amInsert enc name (ty.kind, (importItem st name ty).2)) := by
+    have henc1 : EncOk (G (importItem cn st name ty).1) (l0 ++ [(name, ty)])
+        (amInsert enc name (ty.kind, (importItem cn st name ty).2)) := by
       intro nm k idx hq
       rw [amGet_amInsert'] at hq
       by_cases hn : name = nm
@@ -264,5 +264,41 @@ theorem importAll_ok (l : List (Str × ItemTy)) {st : EncSt} {enc : List (Str ×
     have := ih (l0 ++ [(name, ty)]) f1.sync hi1 (fun e he => hl e (List.mem_cons_of_mem _ he)) henc1
     refine ⟨f1.trans this.1, ?_⟩
     simpa [List.append_assoc] using this.2
+
+end Wac
+
+namespace Wac
+
+theorem importDeps_implicit (ds : List Str) (st : EncSt) : (importDeps ds st).implicit = st.implicit := by
+  induction ds generalizing st with
+  | nil => rfl
+  | cons d ds ih =>
+    simp only [importDeps]
+    split
+    · exact ih st
+    · rw [ih]; simp [emit_implicit]
+
+theorem importItem_implicit (cn : Str → Str) (st : EncSt) (name : Str) (ty : ItemTy) :
+    (importItem cn st name ty).1.implicit = st.implicit := by
+  unfold importItem
+  by_cases hk : ty.kind = .instance
+  · simp only [hk, ↓reduceIte]
+    cases hif : ty.iface with
+    | none => simp [emit_implicit, importDeps_implicit]
+    | some id =>
+      simp only
+      cases hq : amGet st.instances id with
+      | some idx => rfl
+      | none => simp [emit_implicit, importDeps_implicit]
+  · simp [hk, emit_implicit]
+
+theorem importAll_frame (cn : Str → Str) (l : List (Str × ItemTy)) {st : EncSt} {enc : List (Str × (Kind × Nat))} :
+    (importAll cn l st enc).1.implicit = st.implicit := by
+  induction l generalizing st enc with
+  | nil => rfl
+  | cons e l ih =>
+    obtain ⟨name, ty⟩ := e
+    simp only [importAll]
+    rw [ih, importItem_implicit]
 
 end Wac
